@@ -44,7 +44,10 @@ def queries(backend):
             out.append((f"ev-where:{sn}", f"ds.Where(lambda e: {seq}.Aggregate({init}, lambda acc, v: {body}) > 1).Select(lambda e: {A}.Count())"))
     # ---- compound computed seeds: an EXPRESSION over the result of another loop (not a bare variable, not a literal)
     seeds = [f"{B}.Count() + 1", f"-{B}.Count()", f"{B}.Select(lambda k: k.pt()).Sum() * 2", f"{B}.Count() + {A}.Count()", f"(1 if {B}.Count() > 0 else 2)",
-             f"abs({B}.Count() - 3)", f"{B}.Count() / 2", "-1", "-0.5", "1 + 2"]
+             f"abs({B}.Count() - 3)", f"{B}.Count() / 2", "-1", "-0.5", "1 + 2",
+             # expressions over a value that lives in a variable declared WITHOUT initializer (conditional, and/or, function result)
+             f"0.5 * (30 if {B}.Count() > 0 else 10)", f"2 * ({B}.Count() if {A}.Count() > 1 else 1)", f"-abs({B}.Count() - 3)",
+             f"(1 if ({B}.Count() > 0 and {A}.Count() > 0) else 0) + 1"]
     for (sn, seq), init, body in itertools.product(ev_seqs.items(), seeds, ["acc + v", "(acc if acc > v else v)", "v", "acc + 1"]):
         if sn in ("ntrk", "parts-flat"):
             continue
